@@ -69,8 +69,23 @@ def _lat(tier, name):
     return [L[k] for k in MECH[name]["kinds"]]
 
 
+# long times ("identically in time"): the exponentials are far beyond exp(709); with `major` the more abundant reactant, as
+# documented, the closed forms of the batch mechanisms must still return the finite limit (numeric spellings only: the
+# symbolic form, evaluated with 60 digits and unbounded exponent, is the reference)
+LT_TIMES = _F(0, 100, 1000)
+LT_POINTS = dict(
+    pseudo_irrev=[dict(kf=5, prod="1/2", major=5, minor="1/3"), dict(kf=2, prod=0, major=2, minor=1)],
+    pseudo_rev=[dict(kf=5, kb="1/3", prod="1/2", major=5, minor="1/3"), dict(kf=2, kb=2, prod=0, major=2, minor=1)],
+    binary_irrev=[dict(kf=5, prod="1/2", major=5, minor="1/3"), dict(kf=2, prod=0, major=2, minor=1), dict(kf="1/3", prod=2, major=11, minor=5)],
+    binary_rev=[dict(kf=5, kb="1/3", prod="1/2", major=5, minor="1/3"), dict(kf=2, kb=2, prod=0, major=2, minor=1)],
+    dimerization_irrev=[dict(kf=5, initial_C=5, t0=0), dict(kf=2, initial_C="1/3", t0="1/2")],
+)
+LT_SPELLINGS = ("default", '"numpy"', '"math"', "math", "numpy[array t]")
+
+
 def chunks(tier):
     out = [("S", name) for name in ORDER if name != "binary_irrev_cstr"]
+    out += [("LT", name) for name in ORDER if name in LT_POINTS]
     for name in ORDER:
         lat = _lat(tier, name)
         if name == "dimerization_irrev":
@@ -518,6 +533,17 @@ def run_chunk(chunk, tier):
     res = Result()
     if chunk[0] == "S":
         _simplify_chunk(res, chunk[1])
+        return res
+    if chunk[0] == "LT":
+        name = chunk[1]
+        S = _symbolic(name)
+        for pt in LT_POINTS[name]:
+            p = {q: Fr(pt[q]) for q in MECH[name]["params"]}
+            res.states += 1
+            res.nontrivial += 1
+            res.symbols["long-time:" + name] += 1
+            _check_state(res, name, p, list(LT_TIMES), S, modes=list(LT_SPELLINGS) if MECH[name]["has_backend"] else ["float", "numpy[array t]"])
+        res.sample(dict(layer="LT", fn=name, times=[_s(x) for x in LT_TIMES], points=len(LT_POINTS[name])), limit=1)
         return res
     _, name, i, j = chunk
     m = MECH[name]
